@@ -134,6 +134,14 @@ def install(w):
         l = ex.to_list(v, getattr(e, "lineno", None))
         return Z(ex.S.reverse_acc(l, ex.S.nil), fresh="shallow", origin="reversed")
 
+    B["rev"] = _reversed
+
+    @b("rev_acc")
+    def _rev_acc(ex, args, kw, e, env):
+        line = getattr(e, "lineno", None)
+        return Z(ex.S.reverse_acc(ex.to_list(args[0], line), ex.to_list(args[1], line)),
+                 fresh="shallow", origin="rev_acc")
+
     @b("callable")
     def _callable(ex, args, kw, e, env):
         f = ex.w.ufun("callable", ex.S.Py, z3.BoolSort())
